@@ -1,6 +1,8 @@
 import FP.Model.PathCore
 import FP.Spec.Routes
 import FP.Proofs.PathCore
+import FP.Model.WalkDecode
+import FP.Proofs.WalkCore
 /-!
 # C01 — returned paths/walks are real source-to-sink routes of the caller's graph  (DAG part)
 -/
@@ -45,5 +47,39 @@ theorem dag_routes_valid (base : Graph) (starts ends : List Node) (c : PathCfg) 
 theorem decodePaths_length (s : STGraph) (x : Edge → Nat → Rat) (k : Nat) (ps : List (List Node))
     (h : decodePaths s x k = some ps) : ps.length = k :=
   FP.decodePaths_length s x k ps h
+
+/-! ## walk models (graphs with cycles) -/
+
+/-- **Walk encoding is sound and exact (any s-t digraph).** In every satisfying assignment of
+`_encode_walks` (rows 17a, 17b, 21, 22a, 22b, 18a, 19c) every layer's edge variables are natural
+numbers; if the layer leaves the source, the walk handed to the user (Hierholzer reconstruction of
+the residual multigraph, C14) with the synthetic endpoints put back is ONE source-to-sink walk that
+traverses every edge exactly as often as its variable says and no other pair of nodes; if the layer
+does not leave the source it is empty, which is possible only when empty walks are allowed. -/
+theorem walkcore_sound (s : STGraph) (c : WalkCfg) (ub : Edge → Rat) (a : Asg) (hwf : STWFc s)
+    (hsat : Sat a (encodeWalks s c ub)) (i : Nat) (hi : i < c.k) :
+    (∀ e ∈ s.g.edges, a (edgeVar e i) = (multOf a i e : Rat)) ∧
+    ((∀ v ∈ s.g.succ s.source, multOf a i (s.source, v) = 0) →
+        c.allowEmpty = true ∧ decodeWalkLayer s a i = [] ∧ ∀ e ∈ s.g.edges, multOf a i e = 0) ∧
+    ((∃ v ∈ s.g.succ s.source, multOf a i (s.source, v) ≠ 0) →
+        ∀ e : Edge, traversals (s.source :: decodeWalkLayer s a i ++ [s.sink]) e
+          = if e ∈ s.g.edges then multOf a i e else 0) :=
+  FP.walkcore_sound s c ub a hwf hsat i hi
+
+/-- the augmentation of a well-formed user digraph (cycles allowed) is a well-formed s-t digraph -/
+theorem augment_wfc (base : Graph) (starts ends : List Node) (h : BaseWF base) :
+    STWFc (augment base starts ends) :=
+  FP.augment_wfc base starts ends h
+
+/-- **C01 for every cyclic k-model built on `_encode_walks`.** Every non-empty decoded walk is a
+route of the *user's* graph from a node without in-edges (or a declared start) to a node without
+out-edges (or a declared end); the synthetic endpoints never leak; empty walks arise only when they
+are allowed. -/
+theorem walk_routes_valid (base : Graph) (starts ends : List Node) (c : WalkCfg) (ub : Edge → Rat)
+    (a : Asg) (h : BaseWF base)
+    (hsat : Sat a (encodeWalks (augment base starts ends) c ub)) (i : Nat) (hi : i < c.k) :
+    let w := decodeWalkLayer (augment base starts ends) a i
+    (w = [] → c.allowEmpty = true) ∧ (w ≠ [] → ValidRoute base starts ends w) :=
+  FP.walk_routes_valid base starts ends c ub a h hsat i hi
 
 end FP.Props.C01
